@@ -31,6 +31,9 @@ fn main() {
         }
         return;
     }
+    if args[0] == "c20-child" {
+        std::process::exit(checks::c20::child_decode(args.get(1).map(|s| s.as_str()).unwrap_or("")));
+    }
     let id = args[0].clone();
     let mut tier = match std::env::var("VERIF_TIER").as_deref() {
         Ok("thorough") => Tier::Thorough,
